@@ -149,6 +149,11 @@ let handle kind a =
            | BInterrupted -> Some "Err:Interrupted"
            | BNoFuel -> Some "NoFuel")
       end
+  | "cvf" ->
+      let lines = if a.(1) = "_" then [] else List.map bytes_of_hex (String.split_on_char ',' a.(1)) in
+      (match convert_sam_bam_file (fun _ -> None) (fun _ -> None) (bytes_of_hex a.(0)) lines with
+       | CfOk file -> Some ("Ok:" ^ hex_of_bytes file)
+       | CfHeaderErr | CfReadErr _ | CfWriteErr -> Some "Err")
   | "cvsb" | "cvbs" ->
       let refs = if a.(0) = "_" then [] else List.map bytes_of_hex (String.split_on_char ',' a.(0)) in
       let show = function
